@@ -44,7 +44,7 @@ ASSUMPTIONS = [
 HISTORY_CHECK = True   # last runs of every chunk are re-observed alone in a fresh interpreter
 
 TIERS = {
-    "quick":    {"runs": 4000,   "chunk": 100,  "hash_seeds": [0], "max_steps": 10, "timeout": 900},
+    "quick":    {"runs": 4800,   "chunk": 100,  "hash_seeds": [0], "max_steps": 10, "timeout": 900},
     "thorough": {"history_check_cap": 200, "runs": 32000, "chunk": 400, "max_wall": 2400, "hash_seeds": [0, 11], "max_steps": 12, "timeout": 3400},
     "selftest": {"runs": 160,    "chunk": 20,   "hash_seeds": [0], "max_steps": 10, "timeout": 300},
 }
@@ -327,6 +327,7 @@ DICT_DOC = "\r\n".join([
     "DTEND;TZID=Sim/Dict:20200310T110000", "RRULE:FREQ=WEEKLY;COUNT=3",
     "RDATE;TZID=Sim/Dict:20200311T100000,20200312T100000",
     "RDATE;VALUE=PERIOD;TZID=Sim/Dict:19700311T100000/19700311T110000,20200329T013000/20200329T033000",
+    "EXDATE;TZID=Sim/Dict:20200317T100000,20200324T100000",
     "SEQUENCE:1", "GEO:1.0;2.0",
     "SUMMARY:dictionary event", "CATEGORIES:A,B", "URL:http://example.com/a", "ATTENDEE;CN=Jane:mailto:jane@example.com",
     "ATTACH:http://example.com/file", "END:VEVENT",
@@ -351,6 +352,8 @@ DICT_TARGETS = [
     ("BEGIN:STANDARD", "component", True), ("BEGIN:DAYLIGHT", "component", True),
     ("RDATE;VALUE=PERIOD", "date", False), ("FREEBUSY;TZID", "date", False),
     ("ATTENDEE;CN=Jane", "params", False), ("SUMMARY:dictionary", "params", False),
+    ("EXDATE;TZID", "tzid-param", False), ("RDATE;VALUE=PERIOD", "tzid-param", False), ("FREEBUSY;TZID", "tzid-param", False),
+    ("EXDATE;TZID", "date", False),
 ]
 
 
@@ -380,6 +383,8 @@ def generate(rng, cfg):
         # dictionary run: the hostile-field dictionary is enumerated systematically, one combination per run
         if _COMBOS is None:
             _COMBOS = dict_combos()
+            # "enumerated completely by one quick run" is a promise of MANIFEST.json
+            assert TIERS["quick"]["runs"] // 4 >= len(_COMBOS), "quick tier too small for the dictionary"
         i, what, value, provider = _COMBOS[(idx // 4) % len(_COMBOS)]
         trace = []
         if rng.random() < 0.3:
